@@ -258,10 +258,7 @@ Qed.
 Lemma eq_summary_refl : forall a b, a = b -> eq_summary a b = true.
 Proof. intros a b <-. unfold eq_summary, obs_eqb. cbn. apply tl_eqb_refl. Qed.
 Lemma eq_export_refl : forall a b, a = b -> eq_export a b = true.
-Proof.
-  intros a b <-. unfold eq_export, obs_eqb. cbn. rewrite tl_eqb_refl, andb_true_r. destruct (fst (o_export a)) as [[n t]|]; [|reflexivity].
-  rewrite tl_eqb_refl, andb_true_r. apply list_eqb_refl. intros x. now rewrite String.eqb_refl, Z.eqb_refl.
-Qed.
+Proof. intros a b <-. unfold eq_export, obs_eqb. cbn. apply tl_eqb_refl. Qed.
 
 (* the witnesses: one option each, changed once after construction *)
 Definition w_pit_disc := (w_cfg PIT true Sm, [OStep [] [[3 # 4; 1]] []; OSetDisc true], 1%nat).
@@ -277,7 +274,7 @@ Lemma witnesses_differ :
   wdiff w_pit_disc eq_cost = true /\ wdiff w_pit_disc eq_out = false /\
   wdiff w_mps_hard eq_out = true /\ wdiff w_mps_hard eq_cost = true /\
   wdiff w_mps_gumbel eq_out = true /\ wdiff w_mps_gumbel_reset eq_out = true /\
-  wdiff w_mps_nosamp eq_out = true /\ wdiff w_mps_nosamp eq_export = true /\
+  wdiff w_mps_nosamp eq_out = true /\ wdiff w_mps_nosamp eq_cost = true /\
   wdiff w_sn_hard eq_out = true /\ wdiff w_sn_hard eq_cost = true /\ wdiff w_sn_hard eq_summary = true /\
   wdiff w_sn_temp eq_out = true /\ wdiff w_sn_temp eq_cost = true /\ wdiff w_sn_temp eq_summary = true.
 Proof. vm_compute. repeat split. Qed.
@@ -325,10 +322,25 @@ Proof.
   unfold keeps_opts. rewrite Hc. subst g d. destruct (c_smp c); reflexivity.
 Qed.
 
-(* "after the usual forward pass" is necessary: weight ranges / bias scales (MPS) are recomputed on forward *)
-Theorem resume_without_forward_refuted :
-  exists c ops s', load (save (run (fresh c) ops)) (fresh c) = Some s' /\
-                   o_export (obs s') <> o_export (obs (run (fresh c) ops)).
+(* the lazily computed attributes coincide as well after the forward pass *)
+Theorem lazy_state_recomputed : forall c ops n r, c_meth c = MPS ->
+  resume n c (run (fresh c) ops) = Some r -> lazy r = lazy (forward n (run (fresh c) ops)) /\ lazy r <> None.
 Proof.
-  exists (w_cfg MPS true Sm), [OForward 1]. eexists. split; [vm_compute; reflexivity|]. vm_compute. discriminate.
+  intros c ops n r Hc H. destruct (keys_exact c ops) as (_ & _ & _ & Hl).
+  destruct (keys_run ops (fresh c)) as [Hm _]. cbn in Hm. rewrite Hc in Hm.
+  unfold resume in H. rewrite Hl in H. inversion H; subst r; clear H.
+  destruct (run (fresh c) ops) as [m p t]. cbn in Hm. subst m. rewrite Hc. cbn. split; [reflexivity | discriminate].
+Qed.
+
+(* "after the usual forward pass" is necessary: SuperNetCombiner.theta_alpha (read by get_cost) is a plain attribute that
+   only a forward pass (or summary()) sets; MPS weight ranges / bias scales do not exist before the first forward *)
+Theorem resume_without_forward_refuted :
+  (exists c ops s', c_meth c = SN /\ load (save (run (fresh c) ops)) (fresh c) = Some s' /\
+                    o_cost (obs s') <> o_cost (obs (run (fresh c) ops))) /\
+  (exists c ops s', c_meth c = MPS /\ load (save (run (fresh c) ops)) (fresh c) = Some s' /\
+                    lazy s' <> lazy (run (fresh c) ops)).
+Proof.
+  split.
+  - exists (w_cfg SN true Sm), [OForward 1]. eexists. split; [reflexivity|]. split; [vm_compute; reflexivity|]. vm_compute. discriminate.
+  - exists (w_cfg MPS true Sm), [OForward 1]. eexists. split; [reflexivity|]. split; [vm_compute; reflexivity|]. vm_compute. discriminate.
 Qed.
